@@ -65,4 +65,8 @@ def families(tier):
     bad("ring4", 0, 3, strict=True)
     bad("ring5", 0, 3, strict=True)
     bad("all_initial_pull", 2, 3, strict=True)
+    for name, topo in {**R, **({"ring3_chord_ok": topos.BIG_RINGS["ring3_chord_ok"]} if q else topos.BIG_RINGS)}.items():
+        if name == "ring2_dfix_listed_ba":
+            continue
+        fams.append(sched.step_family("C04", "ok_" + name, topo, props=["C04", "C01"], delay_sum_ge_steps=True))
     return fams
